@@ -410,8 +410,12 @@ let handle (line : string) : string =
              | _ -> failwith "bad PG op" in
            Buffer.add_string out tok; Buffer.add_char out ' ') ops;
        let idtok = match page_id !p with None -> "P" | Some i -> pn i in
-       Printf.sprintf "%s# %s %s %s %s" (Buffer.contents out) idtok (pn !p.p_w) (pn !p.p_h)
-         (hex_of_bytes !p.p_bytes))
+       (* "a page built from the bytes of a page equals that page" (the derived equality, after any history) *)
+       let eq = match page_from_bytes !p.p_w !p.p_h !p.p_bytes with
+         | Ok q -> page_eqb q !p
+         | Err _ -> false in
+       Printf.sprintf "%s# %s %s %s %s eq=%d" (Buffer.contents out) idtok (pn !p.p_w) (pn !p.p_h)
+         (hex_of_bytes !p.p_bytes) (if eq then 1 else 0))
   | ("VS" | "VSL") :: a :: st :: msgs ->
     let last_only = (List.hd (String.split_on_char ' ' line) = "VSL") in
     let s = ref (vinit (num a) (style_of_str st)) in
@@ -438,6 +442,12 @@ let handle (line : string) : string =
                     List.iter (fun s -> Buffer.add_string out ("/" ^ obs s)) b';
                     Buffer.add_char out ' ') msgs;
     Printf.sprintf "%s# %s" (Buffer.contents out) (String.concat ";" (List.map (fun s -> str_pages s.v_pages) !b))
+  | "CT" :: op :: _ when (match String.split_on_char '.' op with
+                          | "SND" :: _ :: rest ->
+                            List.exists (fun (pg : page) -> match page_from_bytes pg.p_w pg.p_h pg.p_bytes with
+                                | Ok _ -> false | Err _ -> true)
+                              (pages_of_str (String.concat "." rest))
+                          | _ -> false) -> " => NOPAGE"
   | "CT" :: op :: rest ->
     let script = List.map reply_of_str rest in
     let (tr, o) = (cop_of_str op).run_s script in
